@@ -194,18 +194,27 @@ impl JsArgs for [JsValue] {
 #[allow(dead_code)]
 pub(crate) trait JsExpect<V> {
     /// "expects" a `JsResult`, wrapping the error with a `PanicError`.
-    fn js_expect<S: Into<Box<str>>>(self, msg: S) -> StdResult<V, PanicError>;
+    ///
+    /// An error that script code cannot catch (a runtime limit hit inside the step) is not a
+    /// broken invariant of the engine: it is passed through unchanged.
+    fn js_expect<S: Into<Box<str>>>(self, msg: S) -> JsResult<V>;
 }
 
 impl<V> JsExpect<V> for JsResult<V> {
-    fn js_expect<S: Into<Box<str>>>(self, msg: S) -> StdResult<V, PanicError> {
-        self.map_err(|err| PanicError::new(msg).with_source(err))
+    fn js_expect<S: Into<Box<str>>>(self, msg: S) -> JsResult<V> {
+        self.map_err(|err| {
+            if err.is_catchable() {
+                PanicError::new(msg).with_source(err).into()
+            } else {
+                err
+            }
+        })
     }
 }
 
 impl<V> JsExpect<V> for Option<V> {
-    fn js_expect<S: Into<Box<str>>>(self, msg: S) -> StdResult<V, PanicError> {
-        self.ok_or_else(|| PanicError::new(msg))
+    fn js_expect<S: Into<Box<str>>>(self, msg: S) -> JsResult<V> {
+        self.ok_or_else(|| PanicError::new(msg).into())
     }
 }
 
